@@ -47,8 +47,13 @@ pub fn case(tape: &[u32]) -> CaseOutcome {
         let tree = pysrc::parse(source);
         let index = TreeIndex::new(&tree);
         let d = |extra| detail(dsl, source, &program.gen.globals, extra);
-        let (strict, _) = run(&file, &tree, &index, source, &program.gen.globals, &ExecOpts { lazy: false, debug: None });
-        let (lazy, _) = run(&file, &tree, &index, source, &program.gen.globals, &ExecOpts { lazy: true, debug: None });
+        let model = model_run(&program.gen.prog, &tree, &index, source, &program.gen.globals, Default::default());
+        if let crate::interp::Outcome::Inconclusive(why) = &model.outcome {
+            report.counters.push((format!("inconclusive:{}", why.split(':').next().unwrap_or("")), 1));
+            continue;
+        }
+        let (strict, _) = run_capped(&file, &tree, &index, source, &program.gen.globals, &ExecOpts { lazy: false, debug: None }, model.poll_cap());
+        let (lazy, _) = run_capped(&file, &tree, &index, source, &program.gen.globals, &ExecOpts { lazy: true, debug: None }, model.poll_cap());
         report.evaluations += 2;
         for (mode, r) in [("strict", &strict), ("lazy", &lazy)] {
             match r {
@@ -78,7 +83,6 @@ pub fn case(tape: &[u32]) -> CaseOutcome {
                     }
                 }
                 // labels / non-triviality from the reference interpreter's trace
-                let model = model_run(&program.gen.prog, &tree, &index, source, &program.gen.globals, Default::default());
                 let tr = &model.trace;
                 let uses = tr.scoped_cross_reads > 0 || tr.arm_runs > 0 || tr.loop_iterations > 0 || tr.shorthand_expansions > 0 || (program.gen.features.contains("mutable-local") && tr.statements > 3);
                 if gs.nodes.len() >= 2 && (gs.edge_count() >= 1 || gs.attr_count() >= 1) && uses {
